@@ -49,8 +49,12 @@ type Script struct {
 	SMResume    string   `json:"sm_resume,omitempty"` // value of the resume attribute of <enabled/>; "-" omits it
 	// Glue: step -> bytes written together with the (successful) reply to that step, in one write: what a server sends
 	// right behind the last reply of the negotiation must not be lost on the way to the receive loop
-	Glue        map[string]string `json:"glue,omitempty"`
-	ResumeReply string            `json:"resume_reply,omitempty"` // resumed-same (default) resumed-other failed failed-h failed-item-not-found failed-unexpected-request ...
+	Glue map[string]string `json:"glue,omitempty"`
+	// ExpectEnable: the harness knows that the client will ask for stream management after the bind (it requested it and
+	// the server offers it), so the peer waits for <enable/> instead of taking a silent client to be done - on a loaded
+	// machine the client can take longer than IdleAfterBind to get there
+	ExpectEnable bool   `json:"expect_enable,omitempty"`
+	ResumeReply  string `json:"resume_reply,omitempty"` // resumed-same (default) resumed-other failed failed-h failed-item-not-found failed-unexpected-request ...
 	// Dev: step -> deviation. Steps: open1 starttls tls open2 auth open3 resume bind session enable
 	Dev map[string]Dev `json:"dev,omitempty"`
 	// Variant: step -> which success variant to use (0 = plain)
@@ -292,7 +296,7 @@ func (c *Conn) Negotiate(s *Script, timeout time.Duration) *Outcome {
 		if expectOpen {
 			ev = c.ExpectOpen(time.Until(deadline))
 			expectOpen = false
-		} else if bound && !faulted {
+		} else if bound && !faulted && !s.ExpectEnable {
 			// After a successful bind the client may be done (Client.Resume sends nothing more): when it stays
 			// silent for IdleAfterBind the negotiation is taken to be complete.
 			ev = c.NextElem(IdleAfterBind)
